@@ -1,15 +1,17 @@
+import importlib, os, sys
 HOOK_COMMITS = ["bfc8887"]
+_here = os.path.dirname(os.path.abspath(__file__))
+sys.path.insert(0, _here)
+CHECKS = []
+for i in range(1, 21):
+    pid = "C%02d" % i
+    if os.path.exists(os.path.join(_here, "props", pid.lower() + ".py")):
+        m = importlib.import_module("props." + pid.lower())
+        if getattr(m, "MANIFEST", None):
+            CHECKS.append(m.MANIFEST)
 
-CHECKS = [
-    {"id": "C13",
-     "text": "Coq theorems over the path model (resolve = stack-machine spec, result is normal and a fixed point of normalize, "
-             "absolute references ignore the base, result depends only on the referring file's directory, normalize idempotent), "
-             "for all strings; the model is tied to the code by exhaustive enumeration of all (base, rel) pairs up to 3 (quick) / 4 "
-             "(thorough) segments through the hook plus dependency queries and emitted G[..]/R[..] lookups through the public API.",
-     "note": "Trusted: Coq kernel, extraction (ExtrOcamlBasic), OCaml driver, Rust harness. The Gallina model of path.rs is hand-written; "
-             "its tie to the code is the correspondence run (exhaustive up to the stated bound, sampled beyond).",
-     "technique": "Coq proof (induction over segment lists) + exhaustive model/implementation correspondence via extracted OCaml"},
-]
-
-_PENDING = "check not built yet in this round (planned: DESIGN.md §7/§10); not claimed until its model, theorems and correspondence run exist"
-NOT_APPLICABLE = [{"property_id": "C%02d" % i, "reason": _PENDING} for i in range(1, 21) if "C%02d" % i not in [c["id"] for c in CHECKS]]
+# properties not claimed: reason per id (anything not listed here and not in CHECKS is "pending")
+_REASONS = {}
+_PENDING = "check not built yet in this round (planned: DESIGN.md section 7/10); not claimed until its model, theorems and correspondence run exist"
+NOT_APPLICABLE = [{"property_id": "C%02d" % i, "reason": _REASONS.get("C%02d" % i, _PENDING)}
+                  for i in range(1, 21) if "C%02d" % i not in [c["id"] for c in CHECKS]]
